@@ -153,6 +153,20 @@ def run_config(chk, ctx, name):
                 chk.ob("W2.key-counter-replaced-only-by-constructor", f.key + tag, ok,
                        "%s overwrites the key's counter member with %s" % (f.path, e), where=f.loc(b))
                 chk.count("key_counter_assignments", 1)
+            if rv["k"] == "aggregate" and rv.get("agg") == "adt" and rv["path"] == K:
+                # a struct literal of the key: the counter member is given a constructor result as well
+                idx = [n for n, fl in enumerate(zz.fields_of(F, K)) if fl["name"] == kmember]
+                ex = ex or expr.Expr(F, f)
+                e = ex.of_operand(rv["ops"][idx[0]]) if idx and len(rv["ops"]) > idx[0] else ("?",)
+                while e[0] == "call" and e[1].endswith("::clone") and e[2]:
+                    e = e[2][0]
+                    while e[0] in ("ref", "deref"):
+                        e = e[1]
+                copy_of_member = e[0] == "field" and e[2] == kmember  # a key copied member by member (derived Clone)
+                ok = self_is(f, K) and (copy_of_member or (e[0] == "call" and core.strip_generics(C) in e[1]))
+                chk.ob("W2.key-counter-replaced-only-by-constructor", f.key + ":literal" + tag, ok,
+                       "%s builds a key whose counter member is %s" % (f.path, e), where=f.loc(b))
+                chk.count("key_counter_assignments", 1)
             if rv["k"] in ("ref", "rawptr") and rv.get("bk") == "mut":
                 pp = rv["place"]["proj"]
                 if pp and pp[-1]["k"] == "field" and pp[-1].get("adt") == K and pp[-1].get("name") == kmember:
@@ -552,7 +566,13 @@ def expansion_shape(F, A):
                     pre += 1
     # the loop skips the root level
     ex = expr.Expr(F, xf)
-    skip1 = any(x[0] == "call" and x[1].endswith("::skip") and x[2][1] == ("const", 1)
+    # (either `iter().skip(1)` or the index range `1..len`)
+    def skips_root(x):
+        if x[0] == "call" and x[1].endswith("::skip") and x[2][1] == ("const", 1):
+            return True
+        return (x[0] == "adt" and x[1] == "core::ops::range::Range" and x[3][0] == ("const", 1)
+                and x[3][1][0] == "call" and x[3][1][1].endswith("::len"))
+    skip1 = any(skips_root(x)
                 for b, t in xf.calls() if (core.callee_path(t) or "").endswith("::next") for x in expr.walk(ex.of_operand(t["args"][0])))
     return (pre == 1 and inl == 1 and skip1, "root key pushed before the loop (%d), one key per iteration (%d), loop skips level 0 (%s)" % (pre, inl, skip1))
 
